@@ -148,6 +148,7 @@ var c07Havings = []c07Having{
 	{"min(v) < 2 OR s > 6", []int{0}, func(g c07Group, v map[string]*float64) bool { return lt(c07Agg(g, ref.Min), 2) || gt(v["s"], 6) }},
 	{"x > 3", []int{1}, func(g c07Group, v map[string]*float64) bool { return gt(v["x"], 3) }}, // alias of an expression item (avg(v) * 2)
 	{"CASE WHEN s > 2 THEN 1 ELSE 0 END", []int{0}, func(g c07Group, v map[string]*float64) bool { return gt(v["s"], 2) }},
+	{"CASE WHEN count(*) >= 2 THEN 1 ELSE 0 END", nil, func(g c07Group, v map[string]*float64) bool { return len(g.V) >= 2 }}, // a CASE over an aggregate that is not selected
 	// logical NOT directly on an aggregate call, and as the last predicate of a parenthesised group (count(*) is never NULL)
 	{"NOT count(*) > 2", nil, func(g c07Group, v map[string]*float64) bool { return !(len(g.V) > 2) }},
 	{"(count(*) > 2 OR NOT count(*) > 1) AND count(*) < 3", nil, func(g c07Group, v map[string]*float64) bool {
